@@ -6,7 +6,7 @@ ENGINES = [
     {"name": "E1 symsem", "path": "vlib/symsem.py + vlib/sym.py", "kind_free_text":
         "real inference pipeline executed with symbolic weights (SymReal proxies through the real "
         "SemiringProbability; z3 Bool semiring for the world dimension)",
-     "serves_properties": ["C01", "C06", "C07"]},
+     "serves_properties": ["C01", "C06", "C07", "C08", "C25", "C26", "C29"]},
     {"name": "E2 refsem", "path": "vlib/refsem.py", "kind_free_text":
         "independent reference distribution semantics as z3 terms", "serves_properties": ["C01"]},
     {"name": "E3 tv", "path": "vlib/tv.py", "kind_free_text":
@@ -35,4 +35,16 @@ CHECKS["C06"] = dict(engine="E1 symsem (diffcheck)", category=TV, technique=RVR 
 CHECKS["C07"] = dict(engine="E1 symsem (diffcheck)", category=TV, technique=RVR + "; permutations seeded",
     text="Original vs permuted program text (statements, clauses, body literals with negated literals kept after their binders): z3 proves the two real-code results identical for all parameter values and all worlds.",
     note="Permutations are seeded samples per skeleton (4 quick / 40 thorough); skeletons enumerated.")
+CHECKS["C08"] = dict(engine="E1 symsem (diffcheck)", category=TV, technique=RVR + "; call histories seeded",
+    text="Fresh single-query groundings vs (a) all queries at once, (b) seeded orders of engine.ground/ground_evidence calls into ONE shared target formula (with repeated calls), (c) successive ground_all calls on ONE prepared database: z3 proves each query's rational function identical for all parameter values and worlds.",
+    note="Histories are seeded samples (3 quick / 24 thorough per skeleton plus two fixed shapes). Calls that raise are outside the histories (an engine object is not reusable after it raised).")
+CHECKS["C25"] = dict(engine="E1 symsem (diffcheck) + E3 tv", category=TV, technique=RVR + "; DIMACS text re-read and proved equivalent to the internal CNF by SAT",
+    text="Original program vs to_prolog() export (LogicFormula and LogicDAG, with and without evidence propagation) re-parsed by the real parser: z3 proves the query functions identical. CNF.to_dimacs() output is parsed by an independent reader and proved equivalent (all assignments) to CNF._clauses + constraints, header counts equal.",
+    note="Export options as the to_prolog docstring requires. One known finding (aux-name clash for negated goals) is matched narrowly by inspecting the ground program for duplicate aux names.")
+CHECKS["C26"] = dict(engine="E1 symsem", category=TV, technique="symbolic semiring registered in ProbLog's semiring registry so subquery/2,3 binds P to a z3 term; NRA identity with the top-level run",
+    text="A deterministic wrapper rule calls subquery(G,P) / subquery(G,P,Ev); with the symbolic probability semiring registered as 'prob' the answer term carries P as a rational function, which z3 proves equal to the top-level (conditional) probability for all parameter values.",
+    note="Skeletons enumerated; evidence lists are the skeleton's own evidence. 5-argument form not exercised.")
+CHECKS["C29"] = dict(engine="E1 symsem (diffcheck)", category=TV, technique=RVR + "; extension histories seeded",
+    text="Union prepared from scratch vs db.extend() + add_statement sequence (child, incl. a second-level extension) and base vs parent-after-extension (isolation), with interleaved queries/groundings on parent and partial child: z3 proves identity of every query function.",
+    note="<= 4 added statements, seeded splits (3 quick / 20 thorough per skeleton). Interleaved calls that would raise on a partial program are tried on a scratch engine first.")
 NOT_APPLICABLE = {}
